@@ -155,6 +155,8 @@ def run(ctx, rep):
         f = prog.own_method("OrderValidation", fname)
         cfgf = ctx.cfg(f)
         conds = [n for n in cfgf.live_nodes() if n.kind == "cond"]
+        accounted = set()
+        all_errs = {x.id for x in cfgf.live_nodes() if any(call_name(c) == "_on_error" for c in calls_in(x))}
         for desc, src in specs:
             text, pol = gp(src)
             hit = [n for n in conds if utext(n.exprs[0]) == text]
@@ -162,11 +164,19 @@ def run(ctx, rep):
             for n in hit:
                 on, off = ("T", "F") if pol else ("F", "T")
                 t = [mm for l, mm in n.succ if l == on][0]
+                accounted |= {x for x in all_errs if x == t or (x in cfgf.reachable(t) and (n, pol) in
+                                                                [(g, p_) for g, p_ in cfgf.guards(x)])}
                 errs = [x.id for x in cfgf.live_nodes() if any(call_name(c) == "_on_error" for c in calls_in(x))]
                 # once the guard holds the refusal is inevitable
                 good = good and (t in errs or cfgf.all_paths_pass(t, cfgf.exit, errs)) and bool(errs)
             rep.check(good, "R2", key(f, None, "guard: " + desc), f, hit[0].exprs[0] if hit else None,
                       "guard missing, mis-oriented or not refusing" if not good else "")
+        # "exactly when": these are the only refusals - another one turns away orders the rules above let through
+        extra = sorted(all_errs - accounted)
+        if fname in ("_validate_betfair_price", "_validate_betdaq_price", "_validate_size", "_validate_betfair_liability"):
+            rep.check(not extra, "R2", key(f, None, "no refusal beyond the listed guards"), f,
+                      cfgf.nodes[extra[0]].exprs[0] if extra else None,
+                      "further refusals at lines %s" % [cfgf.nodes[x].lineno for x in extra])
 
     guards_of("_validate_size", [("size is None", "size is None"), ("size <= 0", "size <= 0"),
                                  ("more than two decimals", "size != round(size, 2)")])
